@@ -54,7 +54,12 @@ let render (get_str : 'v option -> string) (item_str : 'k * 'v -> string) (key_s
     String.concat " " (List.map one obs @ [lay])
 
 (* specification-level result (S line): the outputs of the abstract map of Table.v ([run_spec],
-   the right-hand side of TableProofs.table_refines_map_lemma), same text without the L: section *)
+   the right-hand side of TableProofs.table_refines_map_lemma and of
+   TableResizeProofs.table_refines_map_resize_lemma), same text without the L: section.  It is printed
+   only for histories inside the theorem: any operation, the public resize(c) with any c but 1. *)
+let in_theorem (ops : ('k, 'v) op list) : bool =
+  List.for_all (fun o -> match o with OpResize (S O) -> false | _ -> true) ops
+
 let render_spec (get_str : 'v option -> string) (item_str : 'k * 'v -> string) (obs : ('k, 'v) obs list) : string =
   let one = function
     | ObsUnit -> "."
@@ -72,20 +77,20 @@ let () =
         let ops = ops_of kind bytes_of_hex n_of_hex payload in
         let g = (fun o -> hex_of_n (smap_get_default o)) and it = (fun (k, v) -> hex_of_bytes k ^ "=" ^ hex_of_n v) in
         out id "M" (render g it hex_of_bytes (smap_run ops));
-        out id "S" (render_spec g it (smap_run_spec ops))
+        if in_theorem ops then out id "S" (render_spec g it (smap_run_spec ops))
     | "set" ->
         let ops = ops_of kind n_of_hex (fun _ -> ()) payload in
         let g = (fun _ -> "") and it = (fun (k, ()) -> hex_of_n k) in
         out id "M" (render g it hex_of_n (uset_run ops));
-        out id "S" (render_spec g it (uset_run_spec ops))
+        if in_theorem ops then out id "S" (render_spec g it (uset_run_spec ops))
     | "tagmap" ->
         let ops = ops_of kind n_of_hex n_of_hex payload in
         let g = (fun o -> match o with Some v -> hex_of_n v | None -> "~") and it = (fun (k, v) -> hex_of_n k ^ "=" ^ hex_of_n v) in
         out id "M" (render g it hex_of_n (tagmap_run ops));
-        out id "S" (render_spec g it (tagmap_run_spec ops))
+        if in_theorem ops then out id "S" (render_spec g it (tagmap_run_spec ops))
     | "stylemap" ->
         let ops = ops_of kind n_of_hex bytes_of_hex payload in
         let g = (fun o -> match o with Some v -> hex_of_bytes v | None -> "~") and it = (fun (k, v) -> hex_of_n k ^ "=" ^ hex_of_bytes v) in
         out id "M" (render g it hex_of_n (stylemap_run ops));
-        out id "S" (render_spec g it (stylemap_run_spec ops))
+        if in_theorem ops then out id "S" (render_spec g it (stylemap_run_spec ops))
     | _ -> out id "M" "unknown-kind")
